@@ -141,8 +141,9 @@ def run(ctx):
         histories.append(events)
     validate_histories(ctx, histories)
     return ctx.finish(
-        rule="S2C: every history over {fill(v), compute, reset} of the bounded Accumulators model (37 element "
-             "kinds, 45 in the thorough tier; Vectorize over lists of different elements with None padding, dim 3, "
+        rule="S2C: every history over {fill(v), compute, reset} of the bounded Accumulators model (45 element "
+             "kinds, 62 in the thorough tier; floats as exact halves, values that look like nothing, deprecated "
+             "aliases, sum_seq with contexts, reset that raises; Vectorize over lists of different elements with None padding, dim 3, "
              "construct) replayed on the real element, every compute compared, suffix after the last reset replayed on "
              "a new element; non-trivial = at least one fill; C2S: seeded random histories (<= 22/30 operations, "
              "random ints, full-mantissa floats of mixed magnitude, random contexts/edges) validated step by step "
